@@ -353,7 +353,12 @@ class Emitter:
                 return
             act = ["\tvf_T(%s, %d, yytext, yyleng, yystart(), %s);" % (C, i + 1, self.ln())]
             act += self.ops_c(r["act"])
-            body.append("%s\t{\n%s\n\t}" % (txt, "\n".join(act)))
+            # one action in six is written with %{ %} instead of braces (same meaning; not for
+            # the c99 back end, whose rewriting skips such actions: known finding K04)
+            if self.rng is not None and not fl.c99 and util.mix32(case.get("seed", 0) & util.M32, i, 4242) % 6 == 0:
+                body.append("%s\t%%{\n%s\n%%}" % (txt, "\n".join(act)))
+            else:
+                body.append("%s\t{\n%s\n\t}" % (txt, "\n".join(act)))
 
         def emit_items(items):
             for it in items:
@@ -656,10 +661,30 @@ class Emitter:
         L.append("\tv = %s;" % call)
         L.append("\t__atomic_sub_fetch(&vf_inside, 1, __ATOMIC_SEQ_CST);")
         L.append("\tvf_R(vf_inst[i], v, %s); return v; }" % start)
+        # creation and destruction of an instance; in thread mode both happen on the instance's
+        # own thread, after the start barrier, so that they overlap with the other threads
+        L.append("static int vf_create(int i) { %s = vf_inst[i];" % C)
+        if fl.cxx:
+            L.append("\tvf_lex[i] = new VfLexer();")
+            L.append("\tvf_X(vf_inst[i], \"open 0\"); vf_inst[i]->cur_src = 0; return 0; }")
+        else:
+            L.append("\tif (i & 1) { if (yylex_init_extra(vf_inst[i], &vf_scn[i]) != 0) return 92; }")
+            L.append("\telse if (yylex_init(&vf_scn[i]) != 0) return 92;")
+            L.append("\tvf_X(vf_inst[i], \"open 0\"); yyset_in(vf_inst[i]->src[0].fp, vf_scn[i]); "
+                     "yyset_out(vf_inst[i]->out, vf_scn[i]); return 0; }")
+        L.append("static void vf_destroy(int i) { %s = vf_inst[i]; if (vf_inst[i]->finished) return;" % C)
+        if fl.cxx:
+            L.append("\tdelete vf_lex[i]; }")
+        else:
+            L.append("\tif ((i & 1) && (void *) yyget_extra(vf_scn[i]) != (void *) vf_inst[i]) "
+                     "vf_ev1(vf_inst[i], \"F extra-of-another-instance\");")
+            L.append("\tyylex_destroy(vf_scn[i]); }")
         L.append("static void *vf_thread(void *a) { int i = (int) (long) a; "
                  "pthread_barrier_wait(&vf_bar); "
+                 "if (vf_create(i)) { vf_ev1(vf_inst[i], \"F init\"); return 0; } "
                  "while (vf_step(i) != 0) { if ((vf_inst[i]->nev & 7) == 3) sched_yield(); } "
-                 "if (!vf_inst[i]->finished) vf_ev1(vf_inst[i], \"Z\"); return 0; }")
+                 "if (!vf_inst[i]->finished) vf_ev1(vf_inst[i], \"Z\"); "
+                 "vf_destroy(i); return 0; }")
         L.append("int main(int argc, char **argv) {")
         L.append("\tint n, i, left; unsigned long rs; pthread_t th[VF_MAXINST];")
         L.append("\tif (argc < 4) return 93;")
@@ -668,14 +693,7 @@ class Emitter:
         L.append("\tfor (i = 0; i < n; ++i) {")
         L.append("\t\tvf_inst[i] = (struct vf_ctx *) calloc(1, sizeof(struct vf_ctx));")
         L.append("\t\tvf_load(vf_inst[i], argv[4 + 2 * i], argv[5 + 2 * i]); vf_inst[i]->use_jmp = 1;")
-        L.append("\t\t%s = vf_inst[i];" % C)
-        if fl.cxx:
-            L.append("\t\tvf_lex[i] = new VfLexer();")
-            L.append("\t\tvf_X(vf_inst[i], \"open 0\"); vf_inst[i]->cur_src = 0;")
-        else:
-            L.append("\t\tif (yylex_init(&vf_scn[i]) != 0) return 92;")
-            L.append("\t\tvf_X(vf_inst[i], \"open 0\"); yyset_in(vf_inst[i]->src[0].fp, vf_scn[i]); "
-                     "yyset_out(vf_inst[i]->out, vf_scn[i]);")
+        L.append("\t\tif (argv[1][0] != 't' && vf_create(i)) return 92;")
         L.append("\t}")
         L.append("\tif (argv[1][0] == 't') {")
         L.append("\t\tpthread_barrier_init(&vf_bar, 0, (unsigned) n);")
@@ -691,13 +709,7 @@ class Emitter:
                  "if (!vf_inst[i]->finished) vf_ev1(vf_inst[i], \"Z\"); }")
         L.append("\t\t}")
         L.append("\t}")
-        L.append("\tfor (i = 0; i < n; ++i) {")
-        L.append("\t\t%s = vf_inst[i];" % C)
-        if fl.cxx:
-            L.append("\t\tif (!vf_inst[i]->finished) delete vf_lex[i];")
-        else:
-            L.append("\t\tif (!vf_inst[i]->finished) yylex_destroy(vf_scn[i]);")
-        L.append("\t}")
+        L.append("\tif (argv[1][0] != 't') for (i = 0; i < n; ++i) vf_destroy(i);")
         L.append("\t{ char b[64]; snprintf(b, sizeof b, \"# max_concurrent %d\\n\", vf_maxinside); "
                  "vf_puts(vf_inst[0], b); }")
         L.append("\tvf_flush_all();")
